@@ -120,7 +120,7 @@ CLAIMED["C17"] = dict(
          "interpreter with the real LocalDataset classes against a stand-in python_on_whales; TLC (LocalRunTrace) validates exception-or-result, the docker.run "
          "arguments (image, command, mounts), filelist.txt, pre-flight errors before any container, and removal of the temporary directory.",
     design_ref="DESIGN.md section 5 C17, section 2.9",
-    note="All 3600 scenarios (10 file configurations incl. a file named twice); in the real_runner scenarios the container is the C16 namespace sandbox running the generated package's own runner.sh (machines M4 and M5 composed: the result returned to the caller must list exactly the dataset's files as the job's inputs); otherwise python_on_whales is a stand-in (harness/fake_pkgs), docker itself is not exercised; TMPDIR is redirected to observe leftovers.",
+    note="12 000 scenarios (10 file configurations incl. a file named twice), all of them in the thorough tier, 2 800 in the quick tier (every scenario without an earlier use and with docker metadata absent or alone, plus a seeded sample of the others); in the real_runner scenarios the container is the C16 namespace sandbox running the generated package's own runner.sh (machines M4 and M5 composed: the result returned to the caller must list exactly the dataset's files as the job's inputs); otherwise python_on_whales is a stand-in (harness/fake_pkgs), docker itself is not exercised; TMPDIR is redirected to observe leftovers.",
     technique="TLA+ spec LocalRun/LocalRunReq + TLC scenario enumeration, replay through the real LocalDataset with a stand-in docker, TLC trace validation (LocalRunTrace)",
 )
 
